@@ -70,6 +70,7 @@ func main() {
 	max := flag.Int("max", 0, "max schedules")
 	stride := flag.Int("stride", 1, "take every k-th schedule")
 	budget := flag.Duration("budget", 0, "time budget")
+	gqlEvery := flag.Int("gql", 0, "every k-th schedule runs with a slow GraphQL subscriber")
 	replayfile := flag.Bool("replayfile", false, "-sched is a replay file written by bin/check (JSON object with a schedule)")
 	flag.Parse()
 	sdl := txnrun.SDL
@@ -105,6 +106,7 @@ func main() {
 		os.Exit(2)
 	}
 	r.ConcurrentTxns = *variant == "concurrent"
+	r.GqlEvery = *gqlEvery
 	f, err := os.Create(*out)
 	if err != nil {
 		fmt.Fprintln(os.Stderr, err)
